@@ -9,6 +9,7 @@ import Asn1Verif.Codegen.AttrLemmas
   attribute gives back the type (up to the mangled spelling of ENUMERATED items in defaults), the
   tag and the constants.  The full statement is FALSE for the current code; every excluded region
   is a concrete counterexample below (and a finding class of tools/checks/c08.py).
+  The constants of the macro expansion (`consts_match`) are in Props/C08Consts.lean.
 
   Not covered by theorems (exercised on the real code by the stream op `attr reparse` only): the
   definition header (`sequence`/`choice`/.., `extensible_after`), `Model<Rust>` <-> `asn::Type`
